@@ -24,8 +24,8 @@ CHECKS = {
          "Three repository scenarios (chain, 255/256-row tables sharing a block, fork+merge with a re-used table) x destination pre-populated (nothing / first block / first commit) x EVERY maxPackfileSize: byte-identical commits/tables/blocks, block indices, table index and profile rebuilt identically to ingest's, receive order (blocks < table < commit, parents first), done <=> nothing left, a commit with a missing parent is refused. HTTP/gzip are outside.", "4 C07"),
  "C08": ("model_checking", "bounded symbolic execution of ClosedSetsFinder (Process/CommitsToSend/TablesToSend over the real CommitsQueue) on all DAGs up to n commits with symbolic timestamps and symbolic ref/want/have sets",
          "All DAG shapes with n <= 3 (quick) / 4 (thorough) commits, refs/wants/haves as symbolic subsets (incl. an unknown have), 1-2 rounds, depth 0..2: sent + ancestors(acks) cover every ancestor of every want; parents common or earlier; nothing unreachable from the wants; tables exactly for sent commits within depth; unreachable wants refused; step budget as termination bound. The wants set's Go map order is a choice point in a second obligation (n <= 2 quick / 3 thorough). Plus a concrete 10/14-commit ladder history for the polynomial-size claim on the wants side (a single evaluation, known finding) and on the haves side (object reads <= 4 n^2, have list symbolic).", "4 C08"),
- "C10": ("model_checking", "bounded symbolic execution of the fetch gate (saveFetchedRefs) and the client-side push gate (identifyUpdates) over symbolic histories, ref kinds, old/new values and force flags",
-         "n <= 2 (quick) / 3 (thorough) commits with symbolic timestamps; 1-2 refs of kind heads/tags/remotes/custom: without force a ref only moves to a descendant, an existing tag is never overwritten, rejected updates leave the ref untouched and do not affect the other ref, rejections are reported, every applied update is logged once with true old/new. pull, merge fast-forward and remote-side enforcement are outside.", "4 C10"),
+ "C10": ("model_checking", "bounded symbolic execution of the fetch gate (saveFetchedRefs), the client-side push gate (identifyUpdates) and the merge command (runMerge, fast-forward paths) over symbolic histories, ref kinds, old/new values and force flags",
+         "n <= 2 (quick) / 3 (thorough) commits with symbolic timestamps; 1-2 refs of kind heads/tags/remotes/custom: without force a ref only moves to a descendant, an existing tag is never overwritten, rejected updates leave the ref untouched and do not affect the other ref, rejections are reported, every applied update is logged once with true old/new. Merge: the real runMerge for `wrgl merge main other` on every DAG of n <= 3 (quick) / 4 (thorough) commits with --ff/--ff-only/--no-ff: the branch only moves to a descendant of its old value, a fast-forward moves it exactly to the other commit, --ff-only rejects diverged branches and leaves the ref alone, movements are logged with true values, other refs untouched. pull and remote-side enforcement are outside.", "4 C10"),
  "C11": ("model_checking", "bounded symbolic execution of IsAncestorOf / CommitsQueue / SeekCommonAncestor over all DAGs up to n commits with 64-bit symbolic timestamps",
          "All DAG shapes with n <= 3 (quick) / 4 (thorough) commits, timestamps as solver variables (equal, reversed, skewed): ancestor <=> reachable; walk visits each ancestor once; merge base is a common ancestor, is the input that is an ancestor of the others, found iff one exists. GetCommit replaced by a table lookup under gosym (real GetCommit in the native replay).", "4 C11"),
  "C12": ("model_checking", "bounded exhaustive exploration of repository shapes through symbolic execution of the real prune.Prune",
